@@ -86,6 +86,26 @@ CHECKS = {
    "DESIGN.md section 4 / C14",
    "only necessary conditions independent of the iteration order inside a channel; slices whose acknowledgement state is uncertain are skipped, never judged.",
    "runtime monitoring: per-call budget attribution oracle over decoded packets"),
+ "C04": ("fault_enumeration",
+   "Ledger of genuine datagrams per (session, direction) and a reference 256-entry sliding window stepped in lock-step; exhaustive: all 7^4 ordered histories over the window-boundary offsets {0,1,255,256,257,511,512} in both directions and two sequence bases; sampled: live two-session runs with replays, bit flips, truncations, rewritten sequence bytes, cross-session / re-addressed / reflected datagrams, foreign key / protocol, sequences up to 2^64-1. A surfaced payload must be an un-surfaced genuine one of that session; a genuine first-time in-window datagram on a connected session must surface. Checked and shipped builds.",
+   "DESIGN.md section 4 / C04",
+   "AEAD unforgeability assumed; datagrams sealed with the crate's encoder at chosen sequence numbers count as generated by the peer; exhaustive refers to the boundary-history sub-space.",
+   "runtime monitoring: history checker against a ledger + reference sliding-window model"),
+ "C05": ("exploration",
+   "Token ledger + challenge ledger (challenge blobs recovered by opening server replies with the minted keys); every ClientConnected must be justified by a valid unexpired token for this server presented from that address and a response from that address echoing a challenge this server issued for that id; 13 scripted attack classes (expiry instants, field and bit corruption, foreign key / protocol / host list, token replay from a second address, cross-use of challenges, stale and corrupted challenges) plus random operations.",
+   "DESIGN.md section 4 / C05",
+   "fewer than 2048 tokens per server instance; a response during the second between floor(t)=expire and pending expiry is tolerated (the statement constrains the request time).",
+   "runtime monitoring: justification oracle over a request / challenge / response event ledger"),
+ "C10": ("exploration",
+   "Connection-table reference model fed by ServerResults; after every call ids and addresses are pairwise distinct, connected <= max_clients (limit never lowered), clients_id() equals the model, lookups / user data / payload attribution match the authenticated session, every ClientDisconnected matches one unmatched ClientConnected; full-server refusals must not disturb existing sessions (payload probes both ways).",
+   "DESIGN.md section 4 / C10",
+   "the session's token is identified by the key that opens the keep-alive returned with ClientConnected.",
+   "runtime monitoring: lock-step reference model of the connection table with invariant checks after every call"),
+ "C18": ("exploration",
+   "Real server + client over an addressed datagram queue with per-datagram fates and virtual clocks; bounded handshake completion after faults stop (B = 4*(250 ms + 2*dt_max) + 1 s), fail-over across silent addresses, timeout of silent peers on both sides at the next update, half-open expiry, survival of live sessions, and twin runs (with / without injected forged or replayed datagrams) whose disconnect instants must coincide; limits raised and lowered at run time.",
+   "DESIGN.md section 4 / C18",
+   "bounded liveness only; 'authentic' for must-disconnect counts any first delivery of a genuine datagram (lenient), for must-not-disconnect only keep-alive / payload (strict).",
+   "runtime monitoring: deadline monitors on virtual time + twin-run comparison"),
 }
 
 NOT_YET = {}
